@@ -12,7 +12,7 @@ META = {
     "level": "translation_validation",
     "engine": "E1 artifact-level SMT: real sat.cnf() output vs relational gate semantics (UNSAT + 2QBF)",
     "hashseeds": {"quick": [0, 1], "thorough": [0, 1, 2, 3, 4, 5, 6, 7]},
-    "shards": {"quick": 8, "thorough": 2},
+    "shards": {"quick": 8, "thorough": 4},
     "bounds": {
         "quick": "families F-unit(K<=5, type pairs at arity 2,3) + F-shape + F-bb + F-cyc + aux-name collision circuits + 30 seeded random DAGs (<=12 gates, arity<=5); for each: ALL node valuations and ALL aux-variable values (2QBF); solve(): empty, every single literal (<=40 nodes), solver-generated consistent/inconsistent total and partial assignments, non-node key",
         "thorough": "same + 300 random DAGs (<=24 gates) + bundled c17/s27/c432/c499 netlists, 8 hash seeds",
